@@ -40,6 +40,9 @@ inline EvInfo evinfo(const E& e, F* tag) {
         return sim_probe_any(e, tag);
     } else if constexpr (has_sim_ev<E>::value) {
         EvInfo i; i.occ = e.occ; i.chk = e.chk; i.type = E::SIM_EV; i.dyn = E::SIM_EV;
+        if constexpr (requires { e.sim_verify(); }) {
+            if (!e.sim_verify()) i.chk ^= 0x0badbad0u;   // C20: stored copy differs from the submitted object
+        }
         if constexpr (requires { e.marker; }) {
             if (e.marker != 0x5a5a5a5a5a5a5a5aull || e.tail != 0xa5a5a5a5a5a5a5a5ull) i.chk ^= 0xdeadbeefu;
         }
